@@ -344,7 +344,11 @@ def step (st : State) (toks : List String) : State × String :=
       let g := seqAll g (g.dealt - g.committed + 1)
       ({ st with g := g }, "retry ok")
   | ["step", "R"] =>
-    if st.rStage == 1 then
+    if st.rStage == 1 && opt opts "f" == some "rd" then
+      -- the repair's READ fails (a transient engine error): `retry()` ends as "failed_get", the head stays queued and is
+      -- looked at again at the next tick - nothing is concluded from a read that did not answer
+      ({ st with rStage := 0 }, "done R retry failed_get")
+    else if st.rStage == 1 then
       let g := act st.g .retryRead
       match g.retryPc with
       | some _ => ({ st with g := g, rStage := 2 }, "at R commit")
